@@ -6,6 +6,7 @@ import "fmt"
 
 // MutexState backs sync.Mutex.
 type MutexState struct {
+	hb     hbObj
 	locked bool
 	vc     VC
 	id     int
@@ -32,6 +33,7 @@ func (m *MutexState) Lock() {
 	x.point(&pend{desc: fmt.Sprintf("Lock m#%d", m.id), ready: func() bool { return !m.locked }})
 	m.locked = true
 	x.acquire(m.vc)
+	x.hbEvent(&m.hb, kLock, 0)
 	x.tracef("Lock m#%d", m.id)
 }
 
@@ -47,10 +49,12 @@ func (m *MutexState) TryLock() bool {
 	m.init(x)
 	x.point(&pend{desc: fmt.Sprintf("TryLock m#%d", m.id)})
 	if m.locked {
+		x.hbEvent(&m.hb, kTryLock, 0)
 		return false
 	}
 	m.locked = true
 	x.acquire(m.vc)
+	x.hbEvent(&m.hb, kTryLock, 1)
 	return true
 }
 
@@ -67,6 +71,7 @@ func (m *MutexState) Unlock() {
 	}
 	m.locked = false
 	x.release(&m.vc)
+	x.hbEvent(&m.hb, kUnlock, 0)
 	x.tracef("Unlock m#%d", m.id)
 }
 
@@ -80,6 +85,7 @@ func (e fatalError) Error() string { return "fatal error: " + string(e) }
 
 // RWMutexState backs sync.RWMutex (writer preference as in Go: a parked Lock disables new RLocks).
 type RWMutexState struct {
+	hb       hbObj
 	writer   bool
 	readers  int
 	pendingW int
@@ -112,6 +118,7 @@ func (m *RWMutexState) Lock() {
 	m.writer = true
 	x.acquire(m.vc)
 	x.acquire(m.rvc)
+	x.hbEvent(&m.hb, kLock, 0)
 	x.tracef("Lock rw#%d", m.id)
 }
 
@@ -128,6 +135,7 @@ func (m *RWMutexState) Unlock() {
 	}
 	m.writer = false
 	x.release(&m.vc)
+	x.hbEvent(&m.hb, kUnlock, 0)
 	x.tracef("Unlock rw#%d", m.id)
 }
 
@@ -144,6 +152,7 @@ func (m *RWMutexState) RLock() {
 	x.point(&pend{desc: fmt.Sprintf("RLock rw#%d", m.id), ready: func() bool { return !m.writer && m.pendingW == 0 }})
 	m.readers++
 	x.acquire(m.vc)
+	x.hbEvent(&m.hb, kRLock, 0)
 	x.tracef("RLock rw#%d", m.id)
 }
 
@@ -160,6 +169,7 @@ func (m *RWMutexState) RUnlock() {
 	}
 	m.readers--
 	x.release(&m.rvc)
+	x.hbEvent(&m.hb, kRUnlock, 0)
 	x.tracef("RUnlock rw#%d", m.id)
 }
 
@@ -168,6 +178,7 @@ func (m *RWMutexState) Free() bool { return !m.writer && m.readers == 0 }
 
 // WaitGroupState backs sync.WaitGroup.
 type WaitGroupState struct {
+	hb    hbObj
 	n     int
 	vc    VC
 	id    int
@@ -194,6 +205,7 @@ func (w *WaitGroupState) Add(d int) {
 		panic("sync: negative WaitGroup counter")
 	}
 	x.release(&w.vc)
+	x.hbEvent(&w.hb, kWgAdd, uint64(int64(d)))
 	x.tracef("wg#%d.Add(%d) -> %d", w.id, d, w.n)
 }
 
@@ -205,12 +217,16 @@ func (w *WaitGroupState) Wait() {
 	w.init(x)
 	x.point(&pend{desc: fmt.Sprintf("wg#%d.Wait", w.id), ready: func() bool { return w.n == 0 }})
 	x.acquire(w.vc)
+	x.hbEvent(&w.hb, kWgWait, 0)
 	x.tracef("wg#%d.Wait done", w.id)
 }
 
 // AtomicState is the happens-before clock of one atomic variable; every atomic operation is one
 // sequentially consistent step (acquire + release).
-type AtomicOp struct{}
+type atomState struct {
+	vc VC
+	hb hbObj
+}
 
 // AtomicPoint is called by the atomic shim before each operation on the variable at addr.
 func AtomicPoint(addr uintptr, what string) {
@@ -221,16 +237,17 @@ func AtomicPoint(addr uintptr, what string) {
 	x.point(&pend{desc: what})
 	m := x.atomics
 	if m == nil {
-		m = map[uintptr]*VC{}
+		m = map[uintptr]*atomState{}
 		x.atomics = m
 	}
 	v := m[addr]
 	if v == nil {
-		v = &VC{}
+		v = &atomState{}
 		m[addr] = v
 	}
-	x.acquire(*v)
-	x.release(v)
+	x.acquire(v.vc)
+	x.release(&v.vc)
+	x.hbEvent(&v.hb, kAtomic, strHash(what))
 }
 
 // OnceState backs sync.Once.
